@@ -1,0 +1,26 @@
+// SPDX-License-Identifier: Apache-2.0 OR BSD-3-Clause
+
+//! Verification hooks (cargo feature `verif-hooks`, off by default).
+//!
+//! `hit()` is a no-op unless a controller has been registered. A controller may block the
+//! calling thread (hold point) and/or record the event.
+
+use std::sync::{Arc, RwLock};
+
+/// Controller callback: receives the name of the hook point and its scalar arguments.
+pub type Controller = Arc<dyn Fn(&'static str, &[u64]) + Send + Sync>;
+
+static CONTROLLER: RwLock<Option<Controller>> = RwLock::new(None);
+
+/// Register (or, with `None`, remove) the controller.
+pub fn set_controller(c: Option<Controller>) {
+    *CONTROLLER.write().unwrap() = c;
+}
+
+/// Report that the calling thread reached hook point `point`.
+pub fn hit(point: &'static str, args: &[u64]) {
+    let c = CONTROLLER.read().unwrap().clone();
+    if let Some(c) = c {
+        c(point, args);
+    }
+}
